@@ -455,6 +455,11 @@ def ga_builtin(it, obj, name, args, kw):
         obj.data = DF(dict({c: obj.data.cols[c] for c in order}, **hidden), obj.data.n, obj.data.index)
         return None
     if name == "sort":
+        d = obj.data
+        if d.exact and d.n and all(c in d.cols for c in ("chromosome", "start", "end")) and all(isinstance(x, str) for x in d.cols["chromosome"].v) \
+                and _lits(d.cols["start"].v) is not None and _lits(d.cols["end"].v) is not None:
+            return NotImplemented              # literal rows: the real GenomicArray.sort is interpreted
+        # row-class tables: summarised (rows keep their classes; the index is renumbered)
         obj.data.index = "range"
         obj.data.cols["__sorted__"] = Vec([True] * obj.data.n)
         return None
@@ -1428,7 +1433,9 @@ def df_method(it, obj, name, args, kw):
         cols = args[0] if args else kw.get("columns")
         if kw.get("axis") == 1 or "columns" in kw:
             cols = [cols] if isinstance(cols, str) else list(cols)
-            return DF({c: v for c, v in obj.cols.items() if c not in cols}, obj.n, obj.index)
+            out = DF({c: v for c, v in obj.cols.items() if c not in cols}, obj.n, obj.index)
+            out.exact, out.labels = obj.exact, obj.labels
+            return out
     if name == "dropna":
         subset = kw.get("subset")
         cols = list(subset) if subset else [c for c in obj.cols if not c.startswith("__")]
@@ -1436,6 +1443,47 @@ def df_method(it, obj, name, args, kw):
             mask = Vec(not any(is_nan(obj.cols[c].v[i]) for c in cols if c in obj.cols) for i in range(obj.n))
             return df_select(obj, mask)
         return obj.copy()
+    if name == "sort_values" and obj.exact:
+        by = kw.get("by", args[0] if args else None)
+        by = [by] if isinstance(by, str) else list(by)
+        keys = []
+        for b in by:
+            if b not in obj.cols:
+                raise Raised("KeyError", b)
+            col = obj.cols[b].v
+            lit = _lits(col)
+            if lit is None:
+                if all(isinstance(x, (str, tuple)) for x in col):
+                    lit = list(col)
+                else:
+                    lit = None
+            keys.append(lit)
+        if all(k is not None for k in keys):
+            asc = kw.get("ascending", True)
+            rowkeys = list(zip(*keys)) if obj.n else []
+            stable = len(by) > 1 or kw.get("kind") in ("mergesort", "stable")
+            if not stable and len(set(rowkeys)) != len(rowkeys):
+                raise Undecided("sort_values with ties under a non-stable sort kind")
+            try:
+                order = sorted(range(obj.n), key=lambda i: rowkeys[i], reverse=(asc is False))
+            except TypeError:
+                raise Undecided("sort_values over keys that do not compare")
+            if asc is False and stable:
+                # pandas keeps ties in input order also when descending
+                order = sorted(range(obj.n), key=lambda i: rowkeys[i])
+                groups, cur = [], None
+                for i in order:
+                    if cur is not None and rowkeys[i] == rowkeys[cur[-1]]:
+                        cur.append(i)
+                    else:
+                        cur = [i]
+                        groups.append(cur)
+                order = [i for g in reversed(groups) for i in g]
+            d = DF({c: Vec([v.v[i] for i in order], aligned=True) for c, v in obj.cols.items()}, obj.n, "any")
+            d.exact = True
+            labels = obj.labels if obj.labels is not None else (list(range(obj.n)) if obj.index == "range" else None)
+            d.labels = [labels[i] for i in order] if labels is not None else None
+            return d
     if name == "sort_values":
         d = obj.copy()
         d.index = "sorted"
@@ -1612,6 +1660,14 @@ def ext_call(it, dotted, args, kw):
                 return IndexVals(len(items))                # labels not literal: an index of unknown labels
             labels.append(x)
         return IndexVals(len(items), labels)
+    if name == "pd.unique" and len(args) == 1 and not kw:
+        a0 = args[0]
+        if isinstance(a0, (list, tuple)):
+            raise Raised("TypeError", "pd.unique (pandas >= 3) accepts arrays and Series only, not a list")
+        if isinstance(a0, Vec):
+            r = vec_method(it, a0, "drop_duplicates", [], {})
+            r.exact = a0.exact
+            return r
     if name in ("np.all", "np.any") and len(args) == 1 and not kw and isinstance(args[0], Vec):
         return vec_method(it, args[0], name[3:], [], {})
     if name == "np.where" and len(args) == 1 and isinstance(args[0], Vec) and all(isinstance(x, bool) for x in args[0].v):
